@@ -10,6 +10,20 @@ open App
     the address -/
 theorem facts_bounds : genLimitFacts.minPower = 1000000 ∧ genLimitFacts.maxInt64 = true := by decide
 theorem facts_address : Generated.setPowerAddressChecked = true := by decide
+
+/-- `SetPOAPower` and `UpdateValidatorSet`: the callees, in source order — the current power is x/staking's last validator
+    power, the removal branch slashes, deletes the last power, the index entry and the missed-block bitmap, the other branch
+    writes the last power and the index entry; then the running sum; `UpdateValidatorSet` writes the self-delegation, the
+    record and the last power and recomputes the total -/
+theorem facts_set_power_calls :
+    Generated.setPOAPowerCalls =
+      ["TokensToConsensusPower", "NewInt", "ValAddressFromBech32", "GetValidator", "GetLastValidatorPower", "NewIntFromUint64", "uint64",
+       "GetCachedValue", "GetConsAddress", "BlockHeight", "UnwrapSDKContext", "TokensFromConsensusPower", "Slash", "GetConsAddress", "Int64",
+       "LegacyOneDec", "DeleteLastValidatorPower", "DeleteValidatorByPowerIndex", "DeleteMissedBlockBitmap", "SetLastValidatorPower",
+       "GetStakingKeeper", "SetValidatorByPowerIndex", "GetStakingKeeper", "Set", "uint64", "Abs", "float64",
+       "IncreaseAbsoluteChangedInBlockPower", "UpdateValidatorSet"] ∧
+    Generated.updateValidatorSetCalls =
+      ["LegacyNewDec", "NewIntFromUint64", "uint64", "AccAddress", "Bytes", "SetDelegation", "SetValidator", "SetLastValidatorPower", "updateTotalPower"] := by decide
 theorem facts_error : ("ErrPowerBelowMinimum", "2") ∈ Generated.errorsRegistry := by decide
 
 /-- **C14a**: a power below 1,000,000 is rejected (whatever the validator state and the unsafe flag) -/
